@@ -143,6 +143,9 @@ def replay(ctx, behaviours, tag="t", race=False, tolerate=False):
     return out, wall
 
 
+CHUNK = int(os.environ.get("VERIF_TRACE_CHUNK", "6000"))
+
+
 def check_traces(ctx, trace_path, consts, props, name="TraceRun", timeout=900):
     """Runs Trace_TopicCore on the recorded trace; returns (tlc result, records, fails, divs)."""
     dst = os.path.join(ctx.specdir, "world_trace.ndjson")
@@ -154,8 +157,33 @@ def check_traces(ctx, trace_path, consts, props, name="TraceRun", timeout=900):
         c.pop(k, None)
     c["Props"] = tla_set(map(tla_str, props))
     vlib.write_instance(ctx, name, "Trace_TopicCore", c, ["INIT Init", "NEXT Next", "CHECK_DEADLOCK FALSE"])
-    r, fails, divs = vlib.run_vector_monitor(ctx, name, "world_trace.ndjson", timeout=timeout)
     recs = vlib.read_ndjson(dst)
+    if len(recs) <= CHUNK:
+        r, fails, divs = vlib.run_vector_monitor(ctx, name, "world_trace.ndjson", timeout=timeout)
+        return r, recs, fails, divs
+    # long traces are judged in chunks cut at behaviour boundaries (a record with i = 0 opens a behaviour): bounded memory and time
+    # per TLC run; every record is still visited exactly once
+    starts = [k for k, rec in enumerate(recs) if rec.get("i") == 0]
+    chunks, lo = [], 0
+    for st in starts[1:] + [len(recs)]:
+        if st - lo >= CHUNK or st == len(recs):
+            chunks.append((lo, st))
+            lo = st
+    fails, divs, r = [], [], None
+    for lo, hi in chunks:
+        if hi <= lo:
+            continue
+        vlib.write_ndjson(dst, recs[lo:hi])
+        r1, f1, d1 = vlib.run_vector_monitor(ctx, name, "world_trace.ndjson", timeout=timeout)
+        fails += [(k + lo, tags) for k, tags in f1]
+        divs += [(k + lo, what) for k, what in d1]
+        if r is None:
+            r = r1
+        else:
+            r.distinct += r1.distinct
+            r.generated += r1.generated
+            r.wall += r1.wall
+    vlib.write_ndjson(dst, recs)
     return r, recs, fails, divs
 
 
